@@ -12,6 +12,10 @@ def run_suites(ctx, names, runner=None, relevant=None):
     Returns the list of mismatching labels."""
     allbad = []
     for n in names:
+        for gm in lib.SUITE_GEN.get(n, []):
+            tf = getattr(ctx, "translator_fails", {}).get(gm)
+            if tf and not any(b["kind"] == "translator" and b["name"] == tf[0] for b in ctx.broken):
+                ctx.broke("translator", tf[0], tf[1])
         fn = (lambda n=n: (runner or operators.run_suite)(n, ctx.tier, ctx.seed))
         try:
             r = lib.cached_suite(n, ctx.tier, ctx.seed, fn)
